@@ -381,4 +381,23 @@ fn engine_close(this: &mut CloseThisT) -> (r: Result<()>)
         r is Ok,
 //@end
 
+
+// ---- BlockStatistics::reset (C12): a block that was reclaimed and is reused starts like a fresh one -- in particular it is
+// no longer "marked for imminent reclaim", so entries loaded from it come back young and are not rewritten by their next
+// eviction (the mark is what BlockEngine::load turns into Age::Old)
+pub struct AtomUsizeT { pub v: usize }
+impl AtomUsizeT { pub fn store(&mut self, v: usize, o: Ordering) ensures final(self).v == v { self.v = v; } }
+pub struct AtomBoolT { pub v: bool }
+impl AtomBoolT { pub fn store(&mut self, v: bool, o: Ordering) ensures final(self).v == v { self.v = v; } }
+pub struct BlockStatisticsT { pub invalid: AtomUsizeT, pub access: AtomUsizeT, pub probation: AtomBoolT }
+impl BlockStatisticsT {
+//@region foyer-storage/src/engine/block/manager.rs :: impl~^impl BlockStatistics/fn reset name=block_stats_reset whole=1
+//@head
+    fn block_stats_reset(&mut self)
+        ensures
+            !final(self).probation.v, // @label a_reclaimed_block_is_no_longer_marked_for_imminent_reclaim
+            final(self).invalid.v == 0 && final(self).access.v == 0, // @label a_reclaimed_block_starts_with_fresh_statistics
+//@end
+}
+
 } // verus!
